@@ -367,6 +367,9 @@ func (c *oCache) Add(id string, value Object) (err error) {
 	verifYield("add", id)
 	c.mu.Lock()
 	defer c.mu.Unlock()
+	if c.closed {
+		return ErrClosed
+	}
 	if _, ok := c.data[id]; ok {
 		return ErrExists
 	}
